@@ -75,7 +75,9 @@ def _weights(rcp, x):
     if w.get("normalise"):
         arr = arr / arr.sum()
     arr = arr * float(w.get("scale", 1.0))
-    return arr, arr
+    arr = np.asarray(arr, dtype=float)
+    form = w.get("form", "ndarray")   # "any positive array": also a list / tuple of numbers
+    return ({"list": arr.tolist(), "tuple": tuple(arr.tolist())}.get(form, arr)), arr
 
 
 def ref_regression(x, w, delta):
@@ -202,13 +204,18 @@ def sc_lsq(inp, rec):
     # order of the data
     try:
         perm = np.random.default_rng(int(inp["perm_seed"])).permutation(len(x))
-        w2 = warg[perm] if isinstance(warg, np.ndarray) else warg
+        if isinstance(warg, np.ndarray):
+            w2 = warg[perm]
+        elif isinstance(warg, (list, tuple)):
+            w2 = type(warg)(np.asarray(warg, dtype=float)[perm].tolist())   # a list / tuple of weights moves with its observations too
+        else:
+            w2 = warg
         a2, b2, d2 = _fit(x[perm], w2, method, f_delta, inp.get("delta0", 1.0))
         ok = _rel(a2, alpha) <= 1e-9 and _rel(b2, beta) <= 1e-9 and _rel(d2, delta) <= 1e-9
         rec.check(ok, base + "/order", "the result does not depend on the order of the data",
                   f"permuted: alpha={a2:.6g}, beta={b2:.6g}, delta={d2:.6g}; original order: alpha={alpha:.6g}, beta={beta:.6g}, delta={delta:.6g}", inp)
         srt = np.argsort(x, kind="stable")
-        w3 = warg[srt] if isinstance(warg, np.ndarray) else warg
+        w3 = warg[srt] if isinstance(warg, np.ndarray) else (type(warg)(np.asarray(warg, dtype=float)[srt].tolist()) if isinstance(warg, (list, tuple)) else warg)
         a3, b3, d3 = _fit(x[srt], w3, method, f_delta, inp.get("delta0", 1.0))
         ok = _rel(a3, alpha) <= 1e-9 and _rel(b3, beta) <= 1e-9 and _rel(d3, delta) <= 1e-9
         rec.check(ok, base + "/order.sorted", "the result does not depend on the order of the data (pre-sorted input)",
@@ -259,6 +266,9 @@ WEIGHT_SPECS = [
     ("array-x2-normalised", {"kind": "x-power", "power": 2.0, "normalise": True}),
     ("array-x2-times3", {"kind": "x-power", "power": 2.0, "normalise": True, "scale": 3.0}),
     ("array-x1-times0.01", {"kind": "x-power", "power": 1.0, "scale": 0.01}),
+    ("list-x2", {"kind": "x-power", "power": 2.0, "form": "list"}),
+    ("tuple-x1-times1e-9", {"kind": "x-power", "power": 1.0, "scale": 1e-9, "form": "tuple"}),
+    ("array-x2-times1e-12", {"kind": "x-power", "power": 2.0, "normalise": True, "scale": 1e-12}),
 ]
 
 
